@@ -23,7 +23,8 @@ from .weights import strip
 LEVEL_TEXT = ('Static analysis (dominators / guard edges, def-use, polynomial normal form of one recurrence). Decides the structural skeleton of the '
               'verifier: one verdict gate, every weighted accumulator feeds it, the shape guards and decode checks dominate it, challenges are non-zero '
               'transcript outputs, and the closed-form constants have the protocol\'s values. Does not decide coefficient-level equality of the linear '
-              'combination with the published relation (that needs symbolic execution of the loops).')
+              'combination with the published relation (that needs symbolic execution of the loops).'
+              " Also runs C08's weighting rules (with a shared weight the gate only enforces a combination of the members' equations).")
 ASSUMPTIONS = ['merlin challenge bytes are pseudorandom', 'Identity::identity() is the group identity and PartialEq on points is equality']
 RULE_TEXT = 'one obligation per structural fact; non-trivial = decided from a dominator, guard or value term'
 
